@@ -454,7 +454,8 @@ def r24_opaque_iter(text):
     """`E.wires()` (declared `-> impl Iterator<Item = Wire>`, a chain of flat_map / map / chain closures that Verus cannot type) =>
     `wires_of(E)`, an external_body function of the template returning the yielded wires as a vector under a TRUSTED contract;
     `let W = wires_of(E); .. for (I, G) in W.enumerate() {` and `for (I, G) in wires_of(E).enumerate() {` =>
-    `let w__N = <iterator>; for I in 0..w__N.len() { let G = w__N[I];`."""
+    `let w__N = <iterator>; for I in 0..w__N.len() { let G = w__N[I];`; when the loop body contains `continue` (not supported in
+    Verus' for loops): `let w__N = <iterator>; let mut c__N: usize = 0; while c__N < w__N.len() { let I = c__N; c__N += 1; let G = w__N[I];`."""
     n = u = 0
     text, k = re.subn(r'\b((?:self\.)?[A-Za-z_][A-Za-z0-9_.]*?)\.wires\(\)', r'wires_of(\1)', text)
     n += k
@@ -466,7 +467,17 @@ def r24_opaque_iter(text):
         u += 1
         ind, i, g, it = m.groups()
         w = f'w__{u}'
-        text = text[:m.start()] + f'{ind}let {w} = {it}; for {i} in 0..{w}.len() {{ let {g} = {w}[{i}];' + text[m.end():]
+        toks = lex(text)
+        ob = max(k for k, t in enumerate(toks) if t.text == '{' and t.end <= m.end())
+        cb = match_close(toks, ob)
+        has_continue = any(t.kind == 'ident' and t.text == 'continue' for t in toks[ob:cb])
+        if has_continue:
+            # Verus' for loops do not support `continue`: the same iteration as a while loop whose counter is advanced first
+            c = f'c__{u}'
+            new = f'{ind}let {w} = {it}; let mut {c}: usize = 0; while {c} < {w}.len() {{ let {i} = {c}; {c} += 1; let {g} = {w}[{i}];'
+        else:
+            new = f'{ind}let {w} = {it}; for {i} in 0..{w}.len() {{ let {g} = {w}[{i}];'
+        text = text[:m.start()] + new + text[m.end():]
 
 
 def r25_iter_sum(text):
@@ -511,6 +522,90 @@ def r27_add_assign_ref(text):
         text, k = re.subn(r'(?m)^(\s*\w+ \+= )' + re.escape(v) + r';[ \t]*$', r'\1*' + v + ';', text)
         n += k
     return text, n
+
+
+import threading
+_TL = threading.local()   # per-thread options of the //@fn line being woven (units are woven concurrently)
+
+
+def set_opts(d):
+    _TL.opts = dict(d)
+
+
+def r28_mut_self(text):
+    """`fn f(mut self, ..) { BODY }` => `fn f(self, ..) { let mut s__ = self; BODY[self := s__] }` (Verus: "mut self" unsupported)."""
+    toks = lex(text)
+    k = 0
+    while k < len(toks) and not (toks[k].kind == 'ident' and toks[k].text == 'fn'):
+        k += 1
+    if k >= len(toks):
+        return text, 0
+    j = k
+    while toks[j].text != '(':
+        j += 1
+    if not (toks[j + 1].text == 'mut' and toks[j + 2].text == 'self'):
+        return text, 0
+    close = match_close(toks, j)
+    bo = _find_block_open(toks, close + 1)
+    bc = match_close(toks, bo)
+    edits = [(toks[j + 1].start, toks[j + 2].start, '')]
+    edits.append((toks[bo].end, toks[bo].end, ' let mut s__ = self;'))
+    for q in range(bo + 1, bc):
+        if toks[q].kind == 'ident' and toks[q].text == 'self':
+            edits.append((toks[q].start, toks[q].end, 's__'))
+    return _apply_edits(text, edits), 1
+
+
+def r29_map_index(text):
+    """option maps=F1+F2 of the //@fn line names the fields that are HashMaps: `PATH.F[E]` => `(*PATH.F.get(E).unwrap())` (std's
+    `Index for HashMap` is `self.get(key).expect("no entry found for key")`; the orphan rule keeps a template from giving it a
+    precondition, Option::unwrap has one)."""
+    names = [x for x in getattr(_TL, 'opts', {}).get('maps', '').split('+') if x]
+    n = 0
+    for f in names:
+        while True:
+            m = re.search(r'\b((?:\w+\.)+' + re.escape(f) + r')\[([^\[\]]+)\]', text)
+            if not m:
+                break
+            n += 1
+            text = text[:m.start()] + f'(*{m.group(1)}.get({m.group(2)}).unwrap())' + text[m.end():]
+    return text, n
+
+
+def r21b_let_chain_map_collect(text):
+    """`let NAME = CHAIN.iter().map(|V| E).collect();` (CHAIN a field path, possibly one segment per line) =>
+    `let mut NAME__o = Vec::new(); for V in CHAIN.iter() { NAME__o.push(E); } let NAME = NAME__o;`"""
+    n = 0
+    while True:
+        m = re.search(r'(?m)^([ \t]*)let (\w+) = ((?:\w+\s*\.\s*)+\w+)\s*\.iter\(\)\s*\.map\(\|(\w+)\| ([^|;{}]+)\)\s*\.collect\(\);[ \t]*$', text)
+        if not m:
+            return text, n
+        n += 1
+        ind, name, chain, v, e = m.groups()
+        chain = ''.join(chain.split())
+        nl = text[m.start():m.end()].count('\n')
+        new = (f'{ind}let mut {name}__o = Vec::new(); for {v} in {chain}.iter() {{ {name}__o.push({e}); }} let {name} = {name}__o;' + '\n' * nl)
+        text = text[:m.start()] + new + text[m.end():]
+
+
+def r30_iter_mut_enumerate_take(text):
+    """`for (I, W) in X.iter_mut().enumerate().take(N) { .. *W .. }` => `for I in 0..(if N < X.len() { N } else { X.len() }) { .. X[I] .. }`
+    (W only used as `*W`)."""
+    n = 0
+    while True:
+        m = re.search(r'(?m)^([ \t]*)for \((\w+), (\w+)\) in (\w+)\.iter_mut\(\)\.enumerate\(\)\.take\((\w+)\) \{[ \t]*$', text)
+        if not m:
+            return text, n
+        ind, i, w, x, cnt = m.groups()
+        toks = lex(text)
+        ob = max(k for k, t in enumerate(toks) if t.text == '{' and t.end <= m.end())
+        cb = match_close(toks, ob)
+        body = text[toks[ob].end:toks[cb].start]
+        if re.search(r'(?<![*\w])' + re.escape(w) + r'\b', body):
+            raise Unsupported('R30: iter_mut element used other than as *' + w)
+        n += 1
+        body2 = re.sub(r'\*' + re.escape(w) + r'\b', f'{x}[{i}]', body)
+        text = (text[:m.start()] + f'{ind}for {i} in 0..(if {cnt} < {x}.len() {{ {cnt} }} else {{ {x}.len() }}) {{' + body2 + text[toks[cb].start:])
 
 
 def r10_windows2(text):
@@ -574,7 +669,7 @@ def r7_param_patterns(text):
     return _apply_edits(text, edits), n
 
 
-RULES = [('R0', r0_visibility_and_stats), ('R1', r1_ref_patterns), ('R7', r7_param_patterns), ('R8', r8_assert_eq), ('R9', r9_subslice_copy), ('R10', r10_windows2), ('R11', r11_collect), ('R12', r12_subslice_to_subslice), ('R13', r13_copied_take), ('R15', r15_iter_all_eq), ('R16', r16_map_collect_tail), ('R17', r17_match_arm_ref_guard), ('R18', r18_bool_bitand), ('R20', r20_iter_skip), ('R21', r21_let_map_collect), ('R22', r22_vec_extend), ('R23', r23_range_copy), ('R24', r24_opaque_iter), ('R25', r25_iter_sum), ('R26', r26_slice_iters), ('R27', r27_add_assign_ref),
+RULES = [('R0', r0_visibility_and_stats), ('R1', r1_ref_patterns), ('R7', r7_param_patterns), ('R28', r28_mut_self), ('R8', r8_assert_eq), ('R9', r9_subslice_copy), ('R10', r10_windows2), ('R11', r11_collect), ('R12', r12_subslice_to_subslice), ('R13', r13_copied_take), ('R15', r15_iter_all_eq), ('R16', r16_map_collect_tail), ('R17', r17_match_arm_ref_guard), ('R18', r18_bool_bitand), ('R20', r20_iter_skip), ('R21', r21_let_map_collect), ('R21b', r21b_let_chain_map_collect), ('R29', r29_map_index), ('R22', r22_vec_extend), ('R23', r23_range_copy), ('R24', r24_opaque_iter), ('R25', r25_iter_sum), ('R26', r26_slice_iters), ('R27', r27_add_assign_ref), ('R30', r30_iter_mut_enumerate_take),
          ('R2', r2_array_literal_loops), ('R3', r3_zip_enumerate)]
 
 
